@@ -31,6 +31,7 @@ const ucdaoK = "x/ucdao/keeper"
 func ucdaoFn(name string) string { return "(" + ucdaoK + ".BaseKeeper)." + name }
 
 func runC12(r *Run) {
+	defer importProcessLocal(r, "RM", "x/ucdao")
 	P := r.P
 	r.Rule("R1", "OWN: KVStore Set/Delete inside x/ucdao/keeper only in {setBalance, setHoldersIndex, setTotalBalanceOfCoin, SetParams/params setters}; setBalance ← {addCoinsToAccount, TransferOwnership}; setTotalBalanceOfCoin ← {Fund, InitGenesis}; addCoinsToAccount ← {Fund, TransferOwnership, InitGenesis}; setHoldersIndex ← {Fund, TransferOwnership, InitGenesis}; no caller outside the keeper package")
 	r.Rule("R2", "PATH+FLOW Fund: error-checked SendCoinsFromAccountToModule(ctx, sender, ucdao, amount) precedes every ledger write; each addCoinsToAccount(sender, coin) is followed by setTotalBalanceOfCoin(GetTotalBalanceOf(coin.Denom)+coin) of the same coin before the next credit or a success exit, and no total update happens without a preceding credit; setHoldersIndex(sender) on every success path")
